@@ -571,6 +571,17 @@ errcode_t io_channel_write_blk64(io_channel ch, unsigned long long block, int co
 #define T1(ch, block, count) ((UNDO_LO((ch)->block_size, block) + (unsigned long long)UNDO_SIZE((ch)->block_size, count) - 1) / \
 			      DATA_OF(ch)->tdb_data_size + ORG(ch))
 #define IN_RANGE(ch, block, count) (MC.tstar >= T0(ch, block) && MC.tstar <= T1(ch, block, count))
+/* Slack: with the device-start numbering (ORG = offset/tdb) and an offset that is not a multiple of tdb the code
+ * walks the undo blocks of the DEVICE byte range, whose last block can be one beyond T1.  Saving a block that the
+ * request does not touch is harmless for C12 as long as it is saved correctly, so for exactly this block the
+ * statement is "untouched or processed like a block in the range".  No slack with the filesystem-relative
+ * numbering and for aligned offsets. */
+#ifdef UNDO_ORIGIN_FSREL
+#define IS_SLACK(ch, block, count) 0
+#else
+#define IS_SLACK(ch, block, count) ((unsigned long long)DATA_OF(ch)->offset % CFG_TDB != 0 && \
+				    MC.tstar == T1(ch, block, count) + 1)
+#endif
 
 #define TDB_PRE(ch, block, count) \
 	((ch)->block_size == CFG_BS && DATA_OF(ch)->tdb_data_size == CFG_TDB && (count) > -0x7fffffff && \
@@ -591,7 +602,8 @@ static errcode_t undo_write_tdb(io_channel channel, unsigned long long block, in
 		__CPROVER_object_whole(POOL))
 	ENSURES(M.viol == 0 && M.pool_busy == 0)
 	ENSURES(!IN_RANGE(channel, block, count) || POST_IN(RET))
-	ENSURES(IN_RANGE(channel, block, count) || M_UNTOUCHED);
+	ENSURES(IN_RANGE(channel, block, count) || IS_SLACK(channel, block, count) || M_UNTOUCHED)
+	ENSURES(!IS_SLACK(channel, block, count) || RET != 0 || M_UNTOUCHED || M_PROCESSED);
 
 static void build(void)
 {
@@ -652,6 +664,11 @@ void h_write_tdb(void)
 		if (r == 0 && !MC.old_bit && M.nbytes == 0) REACH("beyond-end");
 		if (r == 0 && MC.old_bit) REACH("already-saved");
 		if (r != 0) REACH("in-range-err");
+#if !defined(UNDO_ORIGIN_FSREL) && !defined(ALIGNED_ONLY)
+	} else if (IS_SLACK(&CH, IN.block, IN.count)) {
+		CHECK(r != 0 || M_UNTOUCHED || M_PROCESSED, "unaligned offset, the block after the range: untouched or saved correctly");
+		REACH("slack");
+#endif
 	} else {
 		CHECK(M_UNTOUCHED, "undo block t* outside the range: untouched");
 		REACH("outside");
